@@ -129,6 +129,9 @@ theorem step_ui (g : Bool) (c : Cfg) (ch : UInt8) (h : UI c.stack c.next) : USte
        | exact ui_topSetAttr _ _ _ _ h e)
     | skip
 
+theorem ids_clearParent (n : Node) : ids n.clearParent = ids n := by
+  cases n <;> simp [Node.clearParent, ids]
+
 theorem run_ids (g : Bool) (c : Cfg) (bs : Bytes) (h : UI c.stack c.next) (n : Node) (e : run g c bs = .node n) :
     (ids n).Nodup := by
   induction bs generalizing c with
@@ -145,6 +148,7 @@ theorem run_ids (g : Bool) (c : Cfg) (bs : Bytes) (h : UI c.stack c.next) (n : N
         rw [hs] at h1
         simp only [allIds, List.flatMap_cons, frameIds, hm, idsL, List.append_nil] at h1
         have h2 : (f.id :: ids m).Nodup := (List.nodup_append.mp h1).1
+        rw [ids_clearParent]
         exact (List.nodup_cons.mp h2).2
       · simp at e
   | cons ch rest ih =>
